@@ -128,7 +128,20 @@ def run(ctx):
                 # pending values / entries of the frame, verbatim (the canonical line only says `info`)
                 ma = respa[c["n_pre"] + i][0]["kind"].get("run_command", {}).get("message")
                 mb = respb[c["n_pre_b"] + i][0]["kind"].get("run_command", {}).get("message")
-                if ma != mb:
+                # The fresh session's toplevel frame also holds the results of the prefix evaluations
+                # (every toplevel evaluation leaves its value on frame 0's value stack), below the values
+                # the probes produced. So: among the first probes (nothing evaluated since `:abort`) the
+                # aborted session must show exactly the placeholder; later, its values above the
+                # placeholder must be the newest values of the fresh session.
+                bad = False
+                if inp == ":fstmts":
+                    bad = ma != mb
+                elif i < 6:
+                    bad = ma != "Unit\n"
+                else:
+                    top_a = (ma or "").split("\n")[:-2]
+                    bad = (mb or "").split("\n")[:len(top_a)] != top_a or not (ma or "").endswith("Unit\n")
+                if bad:
                     ctx.fail("C10/leftover-visible", "%s after :abort prints %r, in the fresh session %r" % (inp, ma, mb),
                              requests=rj, interrupts=c["ints"], fresh=[SC.req_json(r) for r in c["b"]])
                     break
